@@ -153,7 +153,8 @@ fn drive(src: &str, lib: Option<&str>, reqs: &[(String, Vec<i64>)], cmds: &[Stri
             if let Ok(j) = done_rx.try_recv() {
                 return json!({"status": "ok", "stops": stops, "result": j, "evals": evals});
             }
-            if start.elapsed() > Duration::from_secs(20) {
+            // generous: the box may be heavily loaded, and a false "hang" is a false alarm
+            if start.elapsed() > Duration::from_secs(180) {
                 // unblock the evaluation thread as well as we can, then give up on this case
                 for _ in 0..1000 {
                     let _ = adapter.continue_();
